@@ -1,6 +1,6 @@
 SPECIFICATION Spec
 CONSTANTS
-  Kind = "acl"
+  Kinds = {"acl", "config", "fed"}
   Ids = {1, 2, 3}
   Cs = {1, 2}
   LegacyCs = {1, 2}
